@@ -70,9 +70,57 @@ Definition is_nil {A} (l : list A) : bool := match l with [] => true | _ => fals
 Definition from_string_pieces (s : bytes) : list bytes :=
   filter (fun p => negb (is_nil p)) (map trim_space (split_on 44 s)).
 
-(* fmt.Sprintf(`"%s" <%s>`, name, addr) *)
+(* msg.go quotedPairs (repaired tree): a strings.NewReplacer that puts a backslash in front of every
+   backslash and every double quote of the display name *)
+Fixpoint escape_name (n : bytes) : bytes :=
+  match n with
+  | [] => []
+  | b :: t => if (b =? 92) || (b =? 34) then 92 :: b :: escape_name t else b :: escape_name t
+  end.
+
+(* the ...Format setters: fmt.Sprintf(`"%s" <%s>`, quotedPairs(name), addr) *)
 Definition format_addr (name address : bytes) : bytes :=
+  bs """" ++ escape_name name ++ bs """ <" ++ address ++ bs ">".
+
+(* the unrepaired tree interpolated the name as it is *)
+Definition format_addr_old (name address : bytes) : bytes :=
   bs """" ++ name ++ bs """ <" ++ address ++ bs ">".
+
+(* ---- RFC 5322 3.2.4 quoted-string (with RFC 6532), written from the RFC: the reader of a display name.
+   qtext = %d33 / %d35-91 / %d93-126 / UTF8-non-ascii; WSP (SP, TAB) may stand between qcontent;
+   quoted-pair = backslash (VCHAR / WSP).  [read_qs] starts after the opening DQUOTE and returns the content
+   and what follows the closing DQUOTE.  Everything else (CR, LF, NUL, the other C0 controls, DEL) is
+   rejected — these are exactly the bytes net/mail refuses inside a quoted-string, too. *)
+Definition qs_byte (b : N) : bool := (b =? 9) || ((32 <=? b) && (b <=? 126)) || (128 <=? b).
+
+Fixpoint read_qs (s : bytes) : option (bytes * bytes) :=
+  match s with
+  | [] => None
+  | b :: t =>
+      if b =? 34 then Some ([], t)
+      else if b =? 92 then
+        match t with
+        | [] => None
+        | c :: t' =>
+            if qs_byte c then
+              match read_qs t' with Some (l, r) => Some (c :: l, r) | None => None end
+            else None
+        end
+      else if qs_byte b then
+        match read_qs t with Some (l, r) => Some (b :: l, r) | None => None end
+      else None
+  end.
+
+(* display name of  DQUOTE ... DQUOTE SP LESS-THAN ... : None if the string does not have this form *)
+Definition read_display_name (s : bytes) : option bytes :=
+  match s with
+  | 34 :: t =>
+      match read_qs t with
+      | Some (n, 32 :: 60 :: _) => Some n
+      | _ => None
+      end
+  | _ => None
+  end.
 
 Section Model.
   Variable parse : bytes -> option addr.
